@@ -20,11 +20,16 @@ func c09Doc(feature int, v string, n int) map[string]any {
 	case 2: // byte sizes
 		s["mem_limit"] = "1g"
 		s["shm_size"] = 64
+		s["memswap_limit"] = n // -1 is "unlimited swap"
 		s["deploy"] = map[string]any{"resources": map[string]any{"limits": map[string]any{"memory": "50M", "cpus": "0.5", "pids": 2}}}
 	case 3: // environment nil / empty / value, labels, extra_hosts
 		s["environment"] = []any{"A=" + v, "B=", "C"}
 		s["labels"] = map[string]any{"l": v, "m": ""}
 		s["extra_hosts"] = []any{"h" + v + "=1.2.3.4", "g=::1"}
+		if n == 3 {
+			// mapping syntax, one host with several addresses in the order the user wrote them
+			s["extra_hosts"] = map[string]any{"h" + v: []any{"9.9.9.9", "1.2.3.4"}, "g": "::1"}
+		}
 	case 4: // secrets / configs grants: implicit and explicit targets
 		// the explicit target of the second grant may coincide with the implicit target of the first
 		s["secrets"] = []any{map[string]any{"source": "xa"}, map[string]any{"source": "zot", "target": "/run/secrets/" + v}}
@@ -36,6 +41,10 @@ func c09Doc(feature int, v string, n int) map[string]any {
 	case 5: // ports and volumes, devices
 		s["ports"] = []any{"8080:80", map[string]any{"target": 53, "protocol": "udp", "published": "53", "mode": "host"}}
 		s["volumes"] = []any{"/host/" + v + ":/t:ro", "vol:/data", map[string]any{"type": "tmpfs", "target": "/tmp", "tmpfs": map[string]any{"size": 1024}}}
+		if n == 3 {
+			// two mounts whose targets only differ by a trailing slash
+			s["volumes"] = append(s["volumes"].([]any), map[string]any{"type": "volume", "source": "vol", "target": "/dup/"}, map[string]any{"type": "volume", "source": "vol", "target": "/dup"})
+		}
 		s["devices"] = []any{"/dev/a:/dev/b:r"}
 		doc["volumes"] = map[string]any{"vol": map[string]any{"labels": map[string]any{"k": v}}}
 	case 6: // depends_on, networks with settings, profiles of a second service
@@ -44,7 +53,7 @@ func c09Doc(feature int, v string, n int) map[string]any {
 		doc["services"].(map[string]any)["o"] = map[string]any{"image": "j"}
 		doc["networks"] = map[string]any{"net": map[string]any{"ipam": map[string]any{"config": []any{map[string]any{"subnet": "10.0.0.0/24"}}}, "driver_opts": map[string]any{"o": v}}}
 	case 7: // build with args, ssh, ulimits
-		s["build"] = map[string]any{"context": "/ctx", "args": map[string]any{"A": v, "N": nil}, "ssh": []any{"default", "k=/key" + v}, "ulimits": map[string]any{"nproc": n},
+		s["build"] = map[string]any{"context": "/ctx", "args": map[string]any{"A": v, "N": nil}, "ssh": c09SSH(n, v), "ulimits": map[string]any{"nproc": n},
 			"tags": []any{"t" + v}, "extra_hosts": []any{"b=1.1.1.1"}}
 	case 8: // env_file long form incl. format, label_file
 		s["env_file"] = []any{map[string]any{"path": "/e/a.env", "required": false}, map[string]any{"path": "/e/b.env", "required": false, "format": "raw"}}
@@ -71,6 +80,19 @@ func c09Doc(feature int, v string, n int) map[string]any {
 		doc["secrets"] = map[string]any{"es": map[string]any{"environment": "E" + v}}
 	}
 	return doc
+}
+
+// c09SSH: the spellings of build.ssh - bare default, default with a path, list and mapping syntax.
+func c09SSH(n int, v string) any {
+	switch n {
+	case 0:
+		return []any{"default=/sock" + v, "k=/key" + v}
+	case -1:
+		return map[string]any{"default": "/sock" + v, "k": "/key" + v}
+	case 3:
+		return map[string]any{"default": nil, "k": "/key" + v}
+	}
+	return []any{"default", "k=/key" + v}
 }
 
 func VerifC09RoundTrip() {
